@@ -27,6 +27,7 @@ import time
 import traceback
 import warnings
 from concurrent.futures import ProcessPoolExecutor, as_completed
+from pathlib import Path
 from typing import Any, Optional
 
 from harness.common import MachineryError, Run, driver_ask, lean_check, rng_for, seed_of_env, use_repo
@@ -47,7 +48,6 @@ TRUSTED = [
 
 SIG_VISITOR = "C19/repetition-left-with-incomplete-iteration"
 SIG_EMPTY = "C19/empty-history-never-complete"
-SIG_CAP = "C19/open-repetition-capped"
 SIG_COMPUTED = "C19/computed-repetition-crash"
 SIG_MERGE = "C19/same-type-recipients-merged"
 SIG_SLICE_ALT = "C19/slice-drops-invisible-alternative"
@@ -56,27 +56,82 @@ SIG_COMPLETE = "C19/complete-mismatch"
 SIG_MOUNT = "C19/mounting-path-invalid"
 SIG_SLICE = "C19/slice-mismatch"
 SIG_SLICE_EQ = "C19/slice-removes-first-equal-symbol"
-SIG_DIVERGE_OPT = "C19/predict-diverges-nullable-head-in-open-repetition"
-SIG_DIVERGE = "C19/predict-diverges"
-SIG_AMBIG = "C19/type-ambiguous-history"
-SIG_NULLTAIL = "C19/complete-missed-with-nullable-nonterminal-tail"
+# the two below name defects of the *parser* that predict() runs into (not of the forecasting code)
+SIG_PARSER_UNBOUNDED = "C19/prefix-parse-unbounded(C06-F32)"
+SIG_PARSER_UNBOUNDED_OTHER = "C19/prefix-parse-unbounded"
+SIG_AMBIG = "C19/party-ambiguous-type-in-history"
+SIG_NULLTAIL = "C19/complete-missed-parser-rejects-history(C05)"
+SIG_CAP = "C19/open-repetition-capped"
+
+VERIF = Path(__file__).resolve().parents[2]
+PROPOSED = VERIF / "proposed_findings" / "C19.json"
+
+
+def load_known(run: Run) -> None:
+    """findings proposed by this builder but not yet decided by the lead are treated exactly like
+    `known_findings.json` entries (the lead moves them into that file)"""
+    if PROPOSED.exists():
+        for k in json.loads(PROPOSED.read_text()):
+            if k.get("property") == PID and k.get("status") == "open" and \
+                    not any(x.get("signature") == k.get("signature") for x in run.known):
+                run.known.append(k)
 
 
 class PredictTimeout(BaseException):
     """raised by SIGALRM inside a worker (BaseException: must not be swallowed by `except Exception`)"""
 
 
+class PrefixParseUnbounded(BaseException):
+    """the prefix parse inside predict() exceeded its step budget (counted in the parser's own code)"""
+
+
 def _on_alarm(*_a):
     raise PredictTimeout()
 
 
-PREDICT_TIMEOUT_S = 6.0
+# Wall-clock backstop only (several checks share the machine): what decides "the prefix parse does not
+# terminate" are the step budgets below, counted inside the parser.
+PREDICT_TIMEOUT_S = 90.0
+# partial trees yielded by `PacketIterativeParser.consume` for ONE history / `Column.add` calls for ONE history.
+# Terminating cases of this check stay below 150 trees and 20k admissions (histories of <= 9 messages).
+MAX_PARTIAL_TREES = 600
+MAX_ADMISSIONS = 400_000
+_STEPS = {"trees": 0, "adds": 0, "armed": False}
+
+
+def _install_step_counters():
+    """count, inside the real parser, the partial trees it yields and the states it admits"""
+    from fandango.io.navigation.packetiterativeparser import PacketIterativeParser
+    import fandango.language.grammar.parser.column as colmod
+    if getattr(PacketIterativeParser, "_c19_counted", False):
+        return
+    orig_consume = PacketIterativeParser.consume
+    orig_add = colmod.Column.add
+
+    def consume(self, *a, **kw):
+        for item in orig_consume(self, *a, **kw):
+            if _STEPS["armed"]:
+                _STEPS["trees"] += 1
+                if _STEPS["trees"] > MAX_PARTIAL_TREES:
+                    raise PrefixParseUnbounded()
+            yield item
+
+    def add(self, state):
+        if _STEPS["armed"]:
+            _STEPS["adds"] += 1
+            if _STEPS["adds"] > MAX_ADMISSIONS:
+                raise PrefixParseUnbounded()
+        return orig_add(self, state)
+    PacketIterativeParser.consume = consume
+    colmod.Column.add = add
+    PacketIterativeParser._c19_counted = True
 
 
 def _init_worker():
     use_repo()
     warnings.simplefilter("ignore")
     signal.signal(signal.SIGALRM, _on_alarm)
+    _install_step_counters()
 
 
 def jm(m) -> list:
@@ -109,15 +164,20 @@ def explore(grammar, cases: list[dict], max_trees: int = 2, check_complete_trees
            "errors": [], "timeouts": 0}
     contents: dict[str, Any] = {}
     to_validate: list = []
-    # a message type that labels two or more message atoms: the type-level prefix parse is ambiguous
-    type_count: dict[str, int] = {}
+    # message types that occur with two or more different (sender, recipient) pairs: predict() re-parses the
+    # history by message TYPE only, so for these the type-level prefix parse is ambiguous where the protocol
+    # is not (a type that always travels between the same two parties is NOT in this class, however often it
+    # occurs)
+    pairs_of: dict[str, set] = {}
     from fandango.language.grammar.node_visitors.symbol_finder import SymbolFinder
     for rule in grammar.rules.values():
         sf = SymbolFinder()
         sf.visit(rule)
         for ntn in sf.nonTerminalNodes:
             if ntn.sender is not None:
-                type_count[ntn.symbol.name()] = type_count.get(ntn.symbol.name(), 0) + 1
+                pairs_of.setdefault(ntn.symbol.name(), set()).add((ntn.sender, ntn.recipient))
+    party_ambiguous = {t for t, ps in pairs_of.items() if len(ps) >= 2}
+    out["party_ambiguous_types"] = len(party_ambiguous)
 
     for case in cases:
         h = tuple(tm(j) for j in case["h"])
@@ -130,26 +190,41 @@ def explore(grammar, cases: list[dict], max_trees: int = 2, check_complete_trees
             out["unbuilt"] += 1      # a missing option upstream was already reported there
             continue
         out["cases"] += 1
+        if mset(case.get("nexts_cap", case["nexts"])) != model_next:
+            out["limit_binding"] = out.get("limit_binding", 0) + 1   # only the documented repetition limit excludes an option here
         for t in ts:
             if out["timeouts"] >= 2:
                 break
             try:
                 signal.setitimer(signal.ITIMER_REAL, PREDICT_TIMEOUT_S)
+                _STEPS.update(trees=0, adds=0, armed=True)
                 try:
                     opts, real_complete, res = pr.real_predict(fc, t)
                 finally:
+                    _STEPS["armed"] = False
                     signal.setitimer(signal.ITIMER_REAL, 0)
+            except PrefixParseUnbounded:
+                # the parser (not the forecasting code) exceeded its step budget
+                out["timeouts"] += 1
+                out["mismatch"].append({"h": [jm(m) for m in h], "kind": "parser-unbounded",
+                                        "trees": _STEPS["trees"], "adds": _STEPS["adds"]})
+                fc = PacketForecaster(grammar)      # the parser object is in an undefined state
+                continue
             except PredictTimeout:
                 out["timeouts"] += 1
-                out["mismatch"].append({"h": [jm(m) for m in h], "kind": "diverges"})
-                fc = PacketForecaster(grammar)      # the parser object is in an undefined state
+                out["mismatch"].append({"h": [jm(m) for m in h], "kind": "wallclock",
+                                        "trees": _STEPS["trees"], "adds": _STEPS["adds"]})
+                fc = PacketForecaster(grammar)
                 continue
             except Exception as e:  # noqa
                 out["errors"].append({"h": [jm(m) for m in h], "error": type(e).__name__ + ": " + str(e)[:200],
                                       "tb": traceback.format_exc()[-800:]})
                 continue
             out["predicts"] += 1
-            if any(type_count.get(m[2], 0) >= 2 for m in h):
+            out["max_trees"] = max(out.get("max_trees", 0), _STEPS["trees"])
+            out["max_adds"] = max(out.get("max_adds", 0), _STEPS["adds"])
+            amb = any(m[2] in party_ambiguous for m in h)
+            if amb:
                 out["predicts_type_ambiguous"] = out.get("predicts_type_ambiguous", 0) + 1
             real = sorted(opts.keys(), key=lambda x: (x[0], x[1] or "", x[2]))
             rec = {"h": [jm(m) for m in h], "real": [jm(m) for m in real], "nexts": [jm(m) for m in model_next],
@@ -157,8 +232,10 @@ def explore(grammar, cases: list[dict], max_trees: int = 2, check_complete_trees
                    "code_fixed_nocap": [jm(m) for m in model_nocap],
                    "real_complete": real_complete, "complete": case["complete"],
                    "code_complete": case["code_complete"], "positions": case["positions"],
-                   "type_ambiguous": any(type_count.get(m[2], 0) >= 2 for m in h),
+                   "type_ambiguous": amb,
                    "nullable_nt": has_nullable_nt}
+            if case["complete"] and not real_complete and h:
+                rec["parser_rejects"] = not pr.parser_accepts(grammar, t)
             if real != model_next or real != model_code or real_complete != case["complete"] \
                     or real_complete != case["code_complete"]:
                 out["mismatch"].append(rec)
@@ -210,7 +287,7 @@ def explore(grammar, cases: list[dict], max_trees: int = 2, check_complete_trees
 
 
 def nullable_nt(gj: dict) -> bool:
-    """is there a non-message nonterminal (other than <start>) that derives the empty interaction?"""
+    """is there a non-message nonterminal that derives the empty interaction and is referenced twice or more?"""
     rules = {r[0]: r[1] for r in gj["rules"]}
 
     def nullable(n, seen=()):
@@ -236,8 +313,14 @@ def nullable_nt(gj: dict) -> bool:
         if k == "rep":
             return refs(n[3])
         return []
-    used = {x for b in rules.values() for x in refs(b)}
-    return any(name in rules and nullable(["nt", name, None, None]) for name in used)
+    # the parser defect behind SIG_NULLTAIL needs the SAME nullable nonterminal to be predicted twice in one
+    # Earley column (`<start> ::= <s1> <s2>; <s1> ::= "a" <s2>; <s2> ::= "b"?`: parse("a") is None): the class
+    # is "a nullable non-message nonterminal that is referenced at two or more places"
+    used: dict[str, int] = {}
+    for b in rules.values():
+        for x in refs(b):
+            used[x] = used.get(x, 0) + 1
+    return any(cnt >= 2 and name in rules and nullable(["nt", name, None, None]) for name, cnt in used.items())
 
 
 def nullable_head_in_open_rep(gj: dict) -> bool:
@@ -316,7 +399,9 @@ def run_grammar(job: dict) -> dict:
             mjs = driver_ask("drv_proto", [{"op": "slice", "grammar": gj, "keep": keep, "ignore_receivers": ign,
                                             "by_eq": b} for b in (True, False)])
             mj, mj_intended = mjs[0]["grammar"], mjs[1]["grammar"]
-            sres["rules_equal"] = pr.canon_rules(sgj) == pr.canon_rules(mj)
+            # the model of slice_parties has two variants (removal by `==` as the code does today / by position
+            # as intended, F41); the real result must be one of them
+            sres["rules_equal"] = pr.canon_rules(sgj) in (pr.canon_rules(mj), pr.canon_rules(mj_intended))
             if not sres["rules_equal"]:
                 sres["real_rules"] = pr.canon_rules(sgj)
                 sres["model_rules"] = pr.canon_rules(mj)
@@ -389,8 +474,13 @@ CORPUS = [
      ["Fz", "Ex", "Th"]),
     ("same type, both directions", "<start> ::= (<Fz:Ex:m0> | <Ex:Fz:m0>) <Ex:Fz:m0>? <Fz:Ex:m1>\n", ["m0", "m1"],
      ["Fz", "Ex"]),
+    # the witnesses of Props/C19.lean: C19_slice_drops_invisible_alternative, C19_slice_removes_first_equal
     ("invisible alternative", "<start> ::= <Fz:Ex:m0> (<Ex:Th:m1> | <Fz:Ex:m2>)\n", ["m0", "m1", "m2"],
      ["Fz", "Ex", "Th"]),
+    ("same type visible and invisible", "<start> ::= (<Th:Fz:m1> | <Ex:Th:m1> | <Fz:Ex:m2>)\n", ["m1", "m2"],
+     ["Fz", "Ex", "Th"]),
+    ("computed-free nesting: option inside bounded repetition inside star",
+     "<start> ::= (<Fz:Ex:m0> (<Ex:Fz:m1> <Fz:Ex:m2>?){1,2})* <Ex:Fz:m3>\n", ["m0", "m1", "m2", "m3"], ["Fz", "Ex"]),
 ]
 
 
@@ -402,7 +492,7 @@ def corpus_spec(body: str, types: list[str], parties: list[str]) -> str:
 def make_jobs(run: Run, tier: str) -> list[dict]:
     from harness.gen.protocols import ProtoGen, spec_text
     rng = run.rng("grammars")
-    n = 150 if tier == "quick" else 700
+    n = 110 if tier == "quick" else 600
     depth = 6 if tier == "quick" else 8
     limit = 300 if tier == "quick" else 900
     jobs = []
@@ -412,10 +502,25 @@ def make_jobs(run: Run, tier: str) -> list[dict]:
             slices = [[["Fz"], False], [["Fz", "Th"], False], [["Fz"], True]]
         jobs.append({"idx": len(jobs), "name": name, "spec": corpus_spec(body, types, parties), "depth": depth + 1,
                      "limit": limit, "cap": None, "slices": slices})
+    class FixedPairs(ProtoGen):
+        """every message type travels between ONE pair of parties - the shape of the protocol specs in docs/
+        (FTP, SMTP, DNS); the unrestricted generator lets a type occur with several pairs, which puts most
+        histories into the class of the open finding `party-ambiguous-type-in-history`"""
+
+        def __init__(self, *a, **kw):
+            super().__init__(*a, **kw)
+            self.pair_of = {t: self.rng.choice(self.pairs) for t in self.types}
+
+        def msg(self):
+            t = self.rng.choice(self.types)
+            s, r = self.pair_of[t]
+            return ("msg", s, r, t)
+
     for i in range(n):
         n_parties = rng.choice([2, 2, 3])
-        gen = ProtoGen(rng, n_parties=n_parties, n_types=rng.choice([2, 3, 4, 5]), n_nts=rng.choice([0, 1, 2, 3]),
-                       max_depth=rng.choice([2, 3, 3]))
+        cls = FixedPairs if rng.random() < 0.7 else ProtoGen
+        gen = cls(rng, n_parties=n_parties, n_types=rng.choice([2, 3, 4, 5]), n_nts=rng.choice([0, 1, 2, 3]),
+                  max_depth=rng.choice([2, 3, 3]))
         g = gen.grammar()
         slices = []
         if n_parties == 3 and rng.random() < 0.8:
@@ -425,7 +530,9 @@ def make_jobs(run: Run, tier: str) -> list[dict]:
             slices.append([["Fz"], True])
         cap = 3 if rng.random() < 0.08 else None
         jobs.append({"idx": len(jobs), "name": f"gen{i}", "spec": spec_text(g), "depth": depth, "limit": limit,
-                     "cap": cap, "slices": slices})
+                     "cap": cap, "slices": slices, "fixed_pairs": cls is FixedPairs})
+    if os.environ.get("VERIF_C19_JOBS"):      # development only (seeded-change trials on a private worktree)
+        jobs = jobs[:int(os.environ["VERIF_C19_JOBS"])]
     return jobs
 
 
@@ -469,7 +576,8 @@ def probe_computed_repetition() -> dict:
 
 
 def probe_open_cap() -> dict:
-    """`<a>* <c>`: after MAX_REPETITIONS iterations the grammar (and the parser) still allow `<a>`"""
+    """`<a>* <c>`: after MAX_REPETITIONS iterations the grammar (and the parser) still allow `<a>`; the visitor
+    implements the capped language (`C19_open_bound_is_cap`): offered iff k < cap"""
     from harness.gen.protocols import content_rules, party_classes
     from harness.impl.grammar_io import parse_spec
     from harness.impl import proto_real as pr
@@ -485,7 +593,8 @@ def probe_open_cap() -> dict:
     for k in range(cap + 2):
         opts, comp, _ = pr.real_predict(fc, t)
         if a not in opts:
-            return {"ok": False, "spec": spec, "iterations": k, "cap": cap, "offered": [jm(m) for m in sorted(opts)]}
+            return {"ok": False, "spec": spec, "iterations": k, "cap": cap, "offered": [jm(m) for m in sorted(opts)],
+                    "at_cap": k == cap}
         t = pr.mount(next(iter(opts[a].paths)), a, "m0;")
     return {"ok": True, "spec": spec, "cap": cap}
 
@@ -511,10 +620,15 @@ def classify(rec: dict, nullable_head: bool = False) -> tuple[Optional[str], Opt
     (code_fixed_nocap == nexts).  Two causes sit outside the Lean model of the code and are recognised here:
     options that differ in the recipient only are merged by `ForecastingNonTerminals` (keyed by symbol), and
     the type-level prefix parse does not return every derivation of a type-ambiguous history."""
-    if rec.get("kind") == "diverges":
-        return (SIG_DIVERGE_OPT if nullable_head else SIG_DIVERGE,
-                f"predict after {rec['h']} does not return within {PREDICT_TIMEOUT_S}s (the prefix parse yields an "
-                f"unbounded stream of partial trees)", False)
+    if rec.get("kind") == "parser-unbounded":
+        return (SIG_PARSER_UNBOUNDED if nullable_head else SIG_PARSER_UNBOUNDED_OTHER,
+                f"predict after {rec['h']}: the prefix parse (IterativeParser, ParsingMode.INCOMPLETE) exceeded its step "
+                f"budget inside the parser ({rec.get('trees')} partial trees yielded, {rec.get('adds')} states admitted; "
+                f"budgets {MAX_PARTIAL_TREES}/{MAX_ADMISSIONS}) - the parser-termination defect of C06, reached through "
+                f"PacketForecaster.predict", False)
+    if rec.get("kind") == "wallclock":
+        return ("wallclock", f"predict after {rec['h']} did not return within {PREDICT_TIMEOUT_S}s although the parser "
+                f"stayed inside its step budgets ({rec.get('trees')} trees, {rec.get('adds')} admissions)", False)
     if rec.get("kind") == "mount":
         return SIG_MOUNT, f"mounting {rec['mount']} after {rec['h']}: {rec.get('error') or rec.get('got')}", False
     if rec.get("kind") in ("complete-tree-invalid", "complete-tree-history"):
@@ -531,8 +645,10 @@ def classify(rec: dict, nullable_head: bool = False) -> tuple[Optional[str], Opt
     # right derivation (the parser returns one tree per ambiguity) or walks a tree stitched together from two
     # derivations (an unfinished node force-completed next to a sibling predicted by another derivation)
     lost = real != code and not merged and rec.get("type_ambiguous", False)
-    corr = (real != code and not merged and not lost) or \
-        (rec["real_complete"] != rec["code_complete"] and not rec.get("type_ambiguous", False))
+    # the model of the code has two variants (`fixed`: visitRepetitionType as it is / with the repair of F36); the
+    # implementation must agree with one of them - so the check stays meaningful before and after the repair lands
+    corr = (real != code and real != fixed and not merged and not lost) or \
+        (rec["real_complete"] not in (rec["code_complete"], rec["complete"]) and not rec.get("type_ambiguous", False))
     sig = what = None
     if real != nx:
         extra = [m for m in real if m not in nx]
@@ -560,9 +676,12 @@ def classify(rec: dict, nullable_head: bool = False) -> tuple[Optional[str], Opt
             sig = SIG_EMPTY
         elif rec.get("type_ambiguous") and not rec["real_complete"]:
             sig = SIG_AMBIG
-        elif rec["complete"] and not rec["real_complete"] and rec.get("nullable_nt"):
-            # the interaction ends with nonterminals that derive nothing; the Earley parser misses the completion
+        elif rec["complete"] and not rec["real_complete"] and rec.get("parser_rejects"):
+            # predict() only relays the parser's verdict; asked directly (COMPLETE mode, same reduced grammar, same
+            # word of message types) the real IterativeParser rejects this word of the language: a parser
+            # completeness defect (C05 domain), not a forecasting one
             sig, corr = SIG_NULLTAIL, False
+            what += " - the real IterativeParser, asked directly in ParsingMode.COMPLETE, rejects the history"
         else:
             sig = SIG_COMPLETE
     return sig, what, corr
@@ -589,7 +708,7 @@ def replay(path: str) -> int:
         nh = res.get("nullable_head_in_open_rep", False)
         for rec in (res.get("explore") or {}).get("mismatch", []):
             sig, what, corr = classify(rec, nh)
-            if sig:
+            if sig and sig != "wallclock":
                 bad.append(what)
         for e in (res.get("explore") or {}).get("errors", []):
             bad.append("predict raised " + e["error"] + " after " + json.dumps(e["h"]))
@@ -601,7 +720,7 @@ def replay(path: str) -> int:
                            + json.dumps(s["wrong_removal"][:1]))
             for rec in (s.get("explore") or {}).get("mismatch", []):
                 sig, what, corr = classify(rec, nh)
-                if sig:
+                if sig and sig != "wallclock":
                     bad.append(f"[sliced to {s['keep']}] " + what)
             if s.get("projection_bad_n"):
                 bad.append(f"[sliced to {s['keep']}] visible part of a prefix is not a prefix of the sliced spec: "
@@ -616,6 +735,7 @@ def replay(path: str) -> int:
 
 def main(tier: str) -> int:
     run = Run(PID, tier, "proof")
+    load_known(run)
     use_repo()
     warnings.simplefilter("ignore")
     lean = lean_check("Props.C19", ["drv_proto", "drv_ir"])
@@ -693,6 +813,14 @@ def main(tier: str) -> int:
         run.count("predict_calls", ex["predicts"])
         run.count("predict_calls_on_type_ambiguous_histories", ex.get("predicts_type_ambiguous", 0))
         run.count("mounts", ex["mounts"])
+        run.count("states_where_the_repetition_limit_excludes_an_option", ex.get("limit_binding", 0))
+        run.count("max_partial_trees_of_one_prefix_parse", 0)
+        run.counters["max_partial_trees_of_one_prefix_parse"] = max(
+            run.counters.get("max_partial_trees_of_one_prefix_parse", 0), ex.get("max_trees", 0))
+        run.counters["max_admissions_of_one_prefix_parse"] = max(
+            run.counters.get("max_admissions_of_one_prefix_parse", 0), ex.get("max_adds", 0))
+        if job.get("fixed_pairs"):
+            run.count("grammars_with_one_party_pair_per_type")
         run.count("complete_trees_validated", ex["complete_trees"])
         run.count("truncated_enumerations", 1 if r["truncated"] else 0)
         run.count("ambiguous(>1 partial derivation)", 1 if r["max_positions"] > 1 else 0)
@@ -712,11 +840,13 @@ def main(tier: str) -> int:
         run.count("timeouts", ex.get("timeouts", 0))
         for rec in ex["mismatch"]:
             sig, what, corr = classify(rec, nh)
-            if sig == SIG_DIVERGE:
-                # slower than the limit for a reason other than the known unbounded stream of partial trees:
-                # inconclusive (exponentially many derivations look the same from outside) — counted, not judged
-                run.count("predict_timeouts_unexplained")
+            if sig == "wallclock":
+                # the wall-clock backstop fired while the parser was inside its step budgets: the machine is
+                # overloaded or the walk is slow - inconclusive, counted, not judged (never a violation)
+                run.count("predict_wallclock_backstop_fired")
                 continue
+            if sig in (SIG_PARSER_UNBOUNDED, SIG_PARSER_UNBOUNDED_OTHER):
+                run.count("prefix_parse_over_step_budget(parser,C06)")
             if corr:
                 corr_failures.append({"spec": spec_head, **{k: rec.get(k) for k in ("h", "real", "code", "real_complete", "code_complete")}})
             if sig:
@@ -749,6 +879,9 @@ def main(tier: str) -> int:
                            dict(base_replay, kind="slice", slices=[[s["keep"], s["ignore_receivers"]]], history=e["h"]))
             for rec in sx["mismatch"]:
                 sig, what, corr = classify(rec, nh)
+                if sig == "wallclock":
+                    run.count("predict_wallclock_backstop_fired")
+                    continue
                 if corr:
                     corr_failures.append({"spec": spec_head, "sliced": s["keep"], **{k: rec.get(k) for k in ("h", "real", "code")}})
                 if sig:
@@ -785,6 +918,6 @@ def main(tier: str) -> int:
         rule="generated protocol grammars (seq/alt/opt/star/plus/{n}/{n,m}/{n,}, nesting depth <= 3, 0-3 helper "
              "nonterminals incl. guarded right/mutual recursion, 2-3 parties, shared message types) x every prefix of "
              "every interaction up to the depth bound (breadth first, capped per grammar) x up to 2 real history "
-             "trees per prefix; + corpus of 8 hand-written specs; + 2 fixed probes; a grammar is non-trivial when it "
+             "trees per prefix; + corpus of 10 hand-written specs; + 2 fixed probes; a grammar is non-trivial when it "
              "has >= 4 prefixes; distinct by spec text",
         trusted_base=TRUSTED)
